@@ -469,3 +469,146 @@ def run(ctx):
                                   f"decoded copies, so the answer differs from the in-memory backend (a NaN grid value is never recognised as visited)",
                           how="one operand is None / True / False / an Enum member, or both are infrastructure objects", where=where(f, x))
     ctx.floor("R09.7", "identity_comparisons", n_is, 114)
+
+    _r09_8(ctx, p)
+    _r09_9(ctx, p)
+    _r09_10(ctx, p)
+
+
+ATTR_SOURCES = ("system_attrs", "user_attrs", "get_study_system_attrs", "get_study_user_attrs", "get_trial_system_attrs", "get_trial_user_attrs")
+JSON_UNSTABLE = {"tuple", "list", "set", "frozenset"}
+
+
+def _from_attrs(e) -> bool:
+    return any((isinstance(x, ast.Attribute) and x.attr in ATTR_SOURCES) for x in ast.walk(e))
+
+
+def _attr_tainted(fnode):
+    """Locals bound (directly, by unpacking, or through one more assignment) to something read from a study/trial attribute dict."""
+    t = set()
+    for _ in range(3):
+        for n in own_nodes(fnode):
+            if isinstance(n, ast.Assign):
+                src = _from_attrs(n.value) or any(isinstance(x, ast.Name) and x.id in t for x in ast.walk(n.value))
+                if src:
+                    for tg in n.targets:
+                        for x in ast.walk(tg):
+                            if isinstance(x, ast.Name):
+                                t.add(x.id)
+    return t
+
+
+def _unstable_type_tests(f):
+    out = []
+    t = _attr_tainted(f.node)
+    for x in own_nodes(f.node):
+        if isinstance(x, ast.Call) and dotted(x.func) == "isinstance" and len(x.args) == 2:
+            subj, ty = x.args
+            names = {(dotted(e) or "").split(".")[-1] for e in (ty.elts if isinstance(ty, ast.Tuple) else [ty])}
+            if not (names & JSON_UNSTABLE) or {"tuple", "list"} <= names:
+                continue
+            if _from_attrs(subj) or any(isinstance(y, ast.Name) and y.id in t for y in ast.walk(subj)):
+                out.append((x, sorted(names & JSON_UNSTABLE)))
+        if isinstance(x, ast.Compare) and len(x.comparators) == 1:
+            sides = [x.left, x.comparators[0]]
+            tcall = next((e for e in sides if isinstance(e, ast.Call) and dotted(e.func) == "type" and e.args), None)
+            if tcall is None:
+                continue
+            subj = tcall.args[0]
+            names = {(dotted(e) or "") for e in sides if e is not tcall}
+            if names & JSON_UNSTABLE and (_from_attrs(subj) or any(isinstance(y, ast.Name) and y.id in t for y in ast.walk(subj))):
+                out.append((x, sorted(names & JSON_UNSTABLE)))
+    return out
+
+
+def _r09_8(ctx, p):
+    ctx.rule("R09.8", "no decision on the concrete container type of a value read back from study/trial attributes: the in-memory backend returns the object "
+             "that was stored (a tuple stays a tuple), every JSON-based backend returns a list (zero-count, with fixture)")
+    n = 0
+    for f in p.iter_funcs(("optuna.samplers", "optuna.pruners", "optuna.study", "optuna.search_space", "optuna.terminator")):
+        for x, names in _unstable_type_tests(f):
+            n += 1
+            ctx.fail("R09.8", f.short, f"container-type-of-stored-attr:{norm(x)[:50]}",
+                     f"{f.name} tests `{norm(x)[:70]}` on a value read from study/trial attributes: a tuple written by the sampler is a tuple only on the in-memory "
+                     f"backend and a list after the JSON round trip of RDB / journal / gRPC, so the branch - here typically \"is there a usable cache entry\" - is taken "
+                     f"differently per backend and the seeded random stream drifts apart", where=where(f, x))
+    if n == 0:
+        ctx.ok("R09.8", "optuna/samplers", "no-container-type-test-on-stored-attrs", how="0 isinstance/type tests for tuple|list|set on values derived from attribute dicts")
+    from sa.loader import Program as _P
+    fx = _P.from_sources({"fx.s": "class S:\n    def f(self, study):\n        attrs = study._storage.get_study_system_attrs(study._study_id)\n        e = attrs.get('k')\n"
+                                  "        if not isinstance(e, tuple):\n            e = (-1, [])\n        g, n = e\n        return g\n"})
+    ctx.require(len(_unstable_type_tests(next(iter(fx.iter_funcs(("fx",)))))) == 1, "R09.8: positive fixture not flagged (rule is blind)")
+
+
+def _r09_9(ctx, p):
+    ctx.rule("R09.9", "what a sampler stores from a user callable is a snapshot: the result of constraints_func (a list the callable may reuse) is copied into an "
+             "immutable tuple before it is handed to set_trial_system_attr - the in-memory backend keeps the very object it is given, the others serialise at once")
+    f = p.func("optuna.samplers._base._process_constraints_after_trial")
+    defs_all = {}
+    for n in own_nodes(f.node):
+        if isinstance(n, ast.Assign):
+            for tg in n.targets:
+                if isinstance(tg, ast.Name):
+                    defs_all.setdefault(tg.id, []).append(n.value)
+    user_results = {k for k, vs in defs_all.items() if any(isinstance(v, ast.Call) and (dotted(v.func) or "").split(".")[-1].endswith("_func") for v in vs)}
+    ctx.require(user_results, "R09.9: the call of constraints_func vanished from _process_constraints_after_trial")
+    sets = [c for c in own_nodes(f.node) if isinstance(c, ast.Call) and isinstance(c.func, ast.Attribute) and c.func.attr == "set_trial_system_attr"]
+    ctx.require(sets, "R09.9: _process_constraints_after_trial no longer stores the constraints")
+    n = 0
+    for c in sets:
+        val = c.args[2] if len(c.args) > 2 else next((k.value for k in c.keywords if k.arg == "value"), None)
+        ctx.require(val is not None, "R09.9: value argument of set_trial_system_attr not found")
+        srcs = defs_all.get(val.id, []) if isinstance(val, ast.Name) else [val]
+        for v in srcs:
+            n += 1
+            fresh = (isinstance(v, ast.Constant) or (isinstance(v, ast.Call) and dotted(v.func) in ("tuple",))
+                     or isinstance(v, (ast.Tuple,)))
+            ctx.check(fresh, "R09.9", f.short, f"constraints-stored-as-snapshot:{norm(v)[:30]}",
+                      message=f"_process_constraints_after_trial stores `{norm(v)[:50]}` as the trial's constraints: when that is the object constraints_func returned "
+                              f"(a list the callable reuses), every finished trial of an in-memory study aliases one list and all samplers read the latest trial's "
+                              f"constraints for the whole history - RDB / journal / gRPC serialise at once and keep the right values",
+                      how="every value that reaches set_trial_system_attr is None or tuple(<result>)", where=where(f, v))
+    ctx.floor("R09.9", "stored_constraint_values", n, 2)
+
+
+def _r09_10(ctx, p):
+    ctx.rule("R09.10", "every backend hands a trial's params / distributions back in the order they were suggested (dict insertion order in memory and journal, "
+             "param_id order from the RDB): samplers that rebuild state by walking trial.params (BruteForceSampler's tree) depend on it - so the gRPC "
+             "decoder must not take that order from an unordered protobuf map")
+    from sa import proto as protomod
+    pr = protomod.load(p.repo)
+    f = p.func("optuna.storages._grpc.servicer._from_proto_trial")
+    ctx.require(f is not None, "R09.10: _from_proto_trial vanished")
+    msg = pr.messages.get("Trial")
+    ctx.require(msg is not None, "R09.10: message Trial vanished from api.proto")
+    prm = f.params()[0]
+    ctor = [c for c in own_nodes(f.node) if isinstance(c, ast.Call) and dotted(c.func) == "FrozenTrial"]
+    ctx.require(len(ctor) == 1, "R09.10: _from_proto_trial must construct one FrozenTrial")
+    n = 0
+    for kw in ("params", "distributions"):
+        v = next((k.value for k in ctor[0].keywords if k.arg == kw), None)
+        ctx.require(v is not None, f"R09.10: FrozenTrial(..., {kw}=...) not found in _from_proto_trial")
+        # the dict is a comprehension, or a local filled by a loop: find what is iterated
+        iters = []
+        if isinstance(v, (ast.DictComp,)):
+            iters = [g.iter for g in v.generators]
+        elif isinstance(v, ast.Name):
+            for st in own_nodes(f.node):
+                if isinstance(st, ast.Assign) and any(isinstance(t, ast.Name) and t.id == v.id for t in st.targets) and isinstance(st.value, ast.DictComp):
+                    iters += [g.iter for g in st.value.generators]
+                if isinstance(st, ast.For) and any(isinstance(t, ast.Subscript) and isinstance(t.value, ast.Name) and t.value.id == v.id
+                                                   for b in ast.walk(st) if isinstance(b, ast.Assign) for t in b.targets):
+                    iters.append(st.iter)
+        ctx.require(iters, f"R09.10: how `{kw}` is built in _from_proto_trial was not recognised")
+        for it in iters:
+            flds = [x.attr for x in ast.walk(it) if isinstance(x, ast.Attribute) and isinstance(x.value, ast.Name) and x.value.id == prm and x.attr in msg]
+            for fld in flds:
+                n += 1
+                ctx.check(msg[fld]["kind"] != "map", "R09.10", f.short, f"suggestion-order-preserved:{kw}",
+                          message=f"_from_proto_trial builds `{kw}` by iterating `{prm}.{fld}`, declared `{msg[fld]['type']} {fld}` in api.proto: protobuf maps iterate in "
+                                  f"hash order, so a trial read through GrpcStorageProxy has its parameters in a different order than on every other backend. "
+                                  f"BruteForceSampler walks trial.params to rebuild its tree and raises `ValueError: param_name mismatch` on the second trial of any "
+                                  f"objective with two or more parameters; order-dependent samplers draw a different sequence",
+                          how="iteration over an ordered (repeated) field, or an explicit order carried in the message", where=where(f, it))
+    ctx.floor("R09.10", "decoded_ordered_dicts", n, 2)
+
